@@ -21,6 +21,10 @@ LEVEL = "model_checking"
 DT = 2.0 ** -6
 
 
+def _hist_name(hist):
+    return " > ".join(h[0] if len(h) == 1 else f"{h[0]}({' '.join(str(x).replace(' ', '') for x in h[1:])})" for h in hist)
+
+
 def natural_matrix(ctx):
     runs = []
     vals = [("0", [0.0, 0.0]), ("None", "none"), ("1", [1.0, 0.0]), ("0.5+0.2j", [0.5, 0.2])]
@@ -106,6 +110,49 @@ def natural_matrix(ctx):
                        [("rotate", 30.0), ("scale", (1.1, 1.3)), ("translate", (2.0, 1.0))]):
                 runs.append(dict(gf, label=f"{kind}/box/derived by {tr}/psi=1", dev=kind, terminal_form="box", transform=tr,
                                  terminal_psi=[1.0, 0.0], steps=10))
+    # histories of ONE Device object (OpsCache.tla, Hists): the device is meshed and used (terminal_info() / a solve), a
+    # terminal polygon is then changed IN PLACE (Polygon.translate / scale / rotate(inplace=True), points = ...) and the
+    # device is solved again WITHOUT being meshed again (the mesh depends on film and holes only): "edited"; the same
+    # with a re-meshing after the change, or the change before the first use: "reset".  The current terminals are the
+    # polygons as they are when the observed solve starts; the oracle follows the change by the harness's own arithmetic.
+    hf = dict(field=0.5, steps=6, ramp=None)
+    top_right, top_left = ["translate", [1.2, 0.0]], ["translate", [-1.0, 0.0]]
+    for kind, cur, hist, name, v, extra in (
+            ("tee", 2.0, [["solve", [0.0, 0.0]], ["edit", "top", *top_right]], "0", [0.0, 0.0], {}),
+            ("tee", 0.0, [["look"], ["edit", "top", *top_left]], "0.6+0.2j", [0.6, 0.2], {}),
+            ("cross", 0.0, [["solve", [0.0, 0.0]], ["edit", "bottom", "scale", [-1.0, 1.0]]], "0", [0.0, 0.0], {}),
+            ("cross", 0.0, [["look"], ["edit", "top", "rotate", 180.0], ["edit", "bottom", "rotate", 180.0]], "0", [0.0, 0.0], {}),
+            ("cross", 0.0, [["solve", [0.6, 0.2]], ["edit", "top", "points", [["scale", [0.6, 1.0]], ["translate", [-1.2, 0.0]]]]],
+             "0.6+0.2j", [0.6, 0.2], {}),
+            ("tee", 0.0, [["solve", "none"], ["edit", "top", *top_right]], "None", "none", {}),
+            ("tee", 2.0, [["solve", [0.6, 0.2]], ["edit", "top", *top_left], ["solve", [0.0, 0.0]], ["edit", "top", "translate", [2.0, 0.0]]], "0", [0.0, 0.0], {}),
+            ("tee", 0.0, [["solve", [0.0, 0.0]], ["edit", "top", *top_right]], "0", [0.0, 0.0],
+             dict(field=0.2, steps=4, screening=True, screening_tol=1e-2)),
+            ("tee", 0.0, [["look"], ["edit", "top", *top_right]], "0", [0.0, 0.0], dict(xi=0.5)),
+            # "reset": changed before the first use / meshed again after the change
+            ("tee", 0.0, [["edit", "top", *top_left], ["look"]], "0", [0.0, 0.0], {}),
+            ("cross", 0.0, [["solve", [0.0, 0.0]], ["edit", "bottom", "scale", [-1.0, 1.0]], ["mesh", 0.6]], "0", [0.0, 0.0], dict(dt=2.0 ** -9))):
+        runs.append(dict(hf, label=f"{kind}/history {_hist_name(hist)}/psi={name}" + ("".join(f"/{k}={x}" for k, x in extra.items())),
+                         dev=kind, current=cur, history=hist, terminal_psi=v, **extra))
+    if not ctx.quick:
+        for kind, tname, moves in (("tee", "top", (["translate", [1.2, 0.0]], ["translate", [-1.5, 0.0]],
+                                                   ["points", [["translate", [0.9, 0.0]]]], ["points", [["scale", [0.5, 1.0]], ["translate", [1.4, 0.0]]]])),
+                                   ("cross", "bottom", (["translate", [-1.3, 0.0]], ["scale", [-1.0, 1.0]], ["rotate", 180.0],
+                                                        ["points", [["scale", [-1.2, 1.0]]]]))):
+            for how in moves:
+                for name, v in (("0", [0.0, 0.0]), ("0.3j", [0.0, 0.3]), ("None", "none")):
+                    for first in (["look"], ["solve", v]):
+                        hist = [first, ["edit", tname, *how]]
+                        if kind == "cross" and how[0] == "rotate":       # bottom -> top: move the top terminal out of the way first
+                            hist = [first, ["edit", "top", "rotate", 180.0], ["edit", tname, *how]]
+                        runs.append(dict(hf, label=f"{kind}/history {_hist_name(hist)}/psi={name}/10 steps", dev=kind, current=(2.0 if kind == "tee" else 0.0),
+                                         history=hist, terminal_psi=v, steps=10))
+            runs.append(dict(hf, label=f"{kind}/history edit+mesh/psi=0", dev=kind, current=0.0, dt=2.0 ** -9,
+                             history=[["look"], ["edit", tname, *moves[0]], ["mesh", 0.6]], terminal_psi=[0.0, 0.0]))
+            runs.append(dict(hf, label=f"{kind}/history two edits/psi=0", dev=kind, current=0.0,
+                             history=[["look"], ["edit", tname, *moves[0]], ["solve", [0.0, 0.0]],
+                                      ["edit", tname, "translate", [-2.4 if kind == "tee" else 2.4, 0.0]]],
+                             terminal_psi=[0.0, 0.0], steps=10))
     # equivalent API forms of configuring the terminal value: keyword (all runs above), attribute assignment after
     # construction (None -> value, value -> None, value -> other value), dataclasses.replace, copy / deepcopy / pickle
     # of an options object, options read back from a Solution file
@@ -215,6 +262,21 @@ def solver_level(ctx):
     if not {"box", "ccw", "cw", "closed"} <= tforms or not {"scale", "rotate", "translate"} <= tops or \
             not any(op == "scale" and min(arg) < 0 for a in nat for op, arg in (a.get("transform") or [])):
         raise core.MachineryFailure(f"C06: terminal forms {sorted(tforms)} / derived devices {sorted(tops)} (incl. a mirror) are incomplete")
+    # device histories: terminals changed in place after a use and not meshed again, by every in-place form, with sites
+    # that stay / enter / leave the terminals (as in the model's instances: term vs term0); "reset" histories; unset value
+    edited = [(a, t) for a, t in zip(nat, nat_traces) if t.get("hist") == "edited"]
+    for a, t in edited:
+        h = t["info"]["history"]
+        if t["mode"] != "none" and min(h["stay"], h["enter"], h["leave"]) < 1:
+            raise core.MachineryFailure(f"C06: history run {a['label']}: terminal sites stay/enter/leave = "
+                                        f"{h['stay']}/{h['enter']}/{h['leave']}: the change of the terminal is not visible on this mesh")
+    hows = {h for _, t in edited for h in t["info"]["history"]["edits"]}
+    if sum(1 for _, t in edited if t["mode"] == "terminals") < 5 or not {"translate", "scale", "rotate", "points"} <= hows or \
+            not any(t["mode"] == "disabled" for _, t in edited) or \
+            sum(1 for t in nat_traces if t.get("hist") == "reset" and t["mode"] == "terminals") < 2:
+        raise core.MachineryFailure(f"C06: device histories with terminals edited in place are incomplete: {len(edited)} edited runs, "
+                                    f"in-place forms {sorted(hows)}")
+    ctx.cov["device_histories"] = {a["label"]: t["info"]["history"] for a, t in zip(nat, nat_traces) if t["info"].get("history")}
     forms = {(t["form"], t["v0"] == "none", t["v"] == "none") for t in nat_traces}
     if not {("assign", False, True), ("assign", True, False)} <= forms or \
             not {"replace", "copy", "deepcopy", "pickle", "file"} <= {f for f, _, _ in forms}:
@@ -230,11 +292,12 @@ def solver_level(ctx):
              "nonzero configured value written only when the step was not retried": dict(oc.REPAIRED, MReimpose="nonzero",
                                                                                          MReimposeOnRetry=False),
              "incoming terminal values written back (nonzero configured value)": dict(oc.REPAIRED, MReimpose="incoming_nonzero"),
-             "fix_psi flag frozen when the options object is constructed": dict(oc.REPAIRED, MFixFlag="at_construction")}
+             "fix_psi flag frozen when the options object is constructed": dict(oc.REPAIRED, MFixFlag="at_construction"),
+             "terminal sites evaluated once per mesh (not from the current terminal polygons)": dict(oc.REPAIRED, MTermInfo="per_mesh")}
     # identification needs only the runs that can tell the mechanisms apart; every run is then judged under the
     # identified mechanism (a run that does not conform to it is a violation)
     telling = [t for t in nat_traces if t["v"] == "nonzero" or t["seed"] == "other" or t["form"] == "assign"
-               or t["info"]["retried_steps"] > 0]
+               or t["info"]["retried_steps"] > 0 or t.get("hist") == "edited"]
     full, res = oc.identify_among(ctx, telling, cands, "C06 natural runs that discriminate the mechanisms")
     if len(full) >= 2:
         raise core.MachineryFailure(f"C06: the natural runs do not discriminate the pin mechanisms {full}")
@@ -242,7 +305,9 @@ def solver_level(ctx):
     mech = cands[which]
     reimpose = mech == oc.REPAIRED
     ctx.cov["mechanism_identified_by_trace_validation"] = {"pin": which if full else None}
-    sb = dict(oc.STEP_DEFAULT) if ctx.quick else dict(oc.STEP_DEFAULT, MaxSteps=5, MaxIter=2, AMax=4, IMax=4)
+    # device histories: in the thorough tier inside the large bounds; in the quick tier in a model of their own (small bounds: the
+    # history enters through the site set the solver works with only, which is fixed at Ctor)
+    sb = dict(oc.STEP_DEFAULT) if ctx.quick else dict(oc.STEP_DEFAULT, Hists=oc.HISTS, MaxSteps=5, MaxIter=2, AMax=4, IMax=4)
     ctx.cov["bounds"]["OpsCache/SpecStep"] = sb
     small = dict(oc.STEP_DEFAULT, Dyns=[False], MaxSteps=2)
     thunks = [lambda: oc.model_check(ctx, sb, mech, oc.INV_C06_STEP, "SpecStep", "ViewStep",
@@ -272,6 +337,17 @@ def solver_level(ctx):
                                 ["UnsetMeansFree"], "SpecStep", view="ViewStep"),
         name="OpsCache/SpecStep[fix_psi flag frozen at options construction: must violate UnsetMeansFree]",
         expect_violation="UnsetMeansFree", count=False))
+    # terminal sites kept from before an in-place change of a terminal polygon: every clause about WHERE psi is pinned fails
+    for clause in ("FixedRowsAreIdentity", "NoOtherRowPinned", "PinnedSitesStayPinned"):
+        thunks.append(lambda clause=clause: ctx.model_check(
+            "OpsCache", oc.cfg_text(dict(small, Vs=["zero"], Scrs=[False], Seeds=["configured"], Modes=["terminals"], Hists=["edited"]),
+                                    dict(oc.REPAIRED, MTermInfo="per_mesh"), [clause], "SpecStep", view="ViewStep"),
+            name=f"OpsCache/SpecStep[terminal sites evaluated once per mesh, terminals edited in place: must violate {clause}]",
+            expect_violation=clause, count=False))
+    if ctx.quick:
+        thunks.append(lambda: oc.model_check(ctx, dict(small, Hists=oc.HISTS, Modes=["terminals", "disabled"]), mech, oc.INV_C06_STEP, "SpecStep",
+                                             "ViewStep", f"OpsCache/SpecStep[C06, device histories {oc.HISTS}, pin mechanism of the code under test: {which}]",
+                                             required=["Ctor", "EulerStep", "Finish"]))
     out = {}
 
     def judge():       # every recorded run, every state (every step, every saved frame): the clauses themselves
@@ -342,8 +418,10 @@ def run(ctx):
     ctx.cov["rule"] = ("operator level: as C10 (sequences of link configurations per instance x pinned set replayed on the real "
                        "MeshOperators; identity-row flags of terminal rows and of all other rows after every call).  solver level: "
                        "natural runs per (device, terminal_psi, drive, screening); after every Euler step and update and in every "
-                       "saved frame the values on Device.terminal_info() sites are classified (exact equality for 0, 1e-12 "
-                       "otherwise); non-trivial = run on a device with terminals; distinct = distinct sequences / run labels")
+                       "saved frame the values on the terminal sites (geometric oracle: boundary sites of the mesh inside the terminal "
+                       "polygons the harness specified, followed through in-place changes of the polygons by the harness's own "
+                       "arithmetic; alongside: Device.terminal_info() sites) are classified (exact equality for 0, 1e-12 otherwise); "
+                       "device histories: used -> terminal polygon changed in place -> solved again without / with re-meshing; non-trivial = run on a device with terminals; distinct = distinct sequences / run labels")
     ctx.assume("natural runs are driven (field and/or current), so that 'non-terminal sites evolve' and 'unset terminals evolve' "
                "are observable; the uniform stationary state (C17) is not used here")
     ctx.assume("the per-site Euler update on a pinned row is modelled by its fixed-point structure only (0 stays 0, any other "
